@@ -124,6 +124,7 @@ long tracked_allocs();                              // number of tracked allocat
 void set_solo(int tid, long budget);                // from now on only `tid` is scheduled (C16)
 bool is_freed(const void* p);                       // p lies in a quarantined block
 uint64_t step_count();
+const Result& partial_result();                      // schedule/choices recorded so far (for aborted executions)
 struct Quiet { Quiet(); ~Quiet(); };                // RAII: allocations/accesses made by harness bookkeeping are not tracked
 void set_abort_handler(std::function<void()> f);   // called (then _exit) when an execution is aborted
 // weak mode / race detector statistics
